@@ -14,7 +14,7 @@ class CallMixin:
             raise VCError("star-args in call (line %d)" % node.lineno)
         f = node.func
         # spec-level forms that take unevaluated arguments
-        if self.spec and isinstance(f, ast.Name) and f.id in ("forall", "exists", "old", "pre", "let"):
+        if self.spec and isinstance(f, ast.Name) and f.id in ("forall", "exists", "old", "pre", "at_loop", "let"):
             yield from self.spec_form(f.id, node, st); return
         if isinstance(f, ast.Name) and f.id == "super":
             raise VCError("bare super()")
@@ -456,7 +456,7 @@ class CallMixin:
                 for k in list(st.heap.keys()):
                     st.heap[k] = fresh_sort("H_%s_%s" % k, st.heap[k].sort())
                 for fam, sch in R.SCHEMAS.items():
-                    for f in sch.fields:
+                    for f in [f_ for f_ in sch.fields if sch.fields[f_] != "ignored"]:
                         st.heap[(fam, f)] = fresh_sort("H_%s_%s" % (fam, f), z3.ArraySort(T.Ref, T.sort_of(sch.fields[f])))
                 continue
             if item == "alloc":
@@ -464,7 +464,7 @@ class CallMixin:
                 r = z3.Int("r!al")
                 for fam, sch in R.SCHEMAS.items():
                     if sch.box: continue
-                    for f in list(sch.fields) + ["__class__"]:
+                    for f in [f_ for f_ in sch.fields if sch.fields[f_] != "ignored"] + ["__class__"]:
                         old = self.harr(st, fam, f)
                         new = fresh_sort("Ha_%s_%s" % (fam, f), old.sort())
                         st.assume(z3.ForAll([r], z3.Implies(r < st.alloc, z3.Select(new, r) == z3.Select(old, r))))
@@ -479,4 +479,5 @@ class CallMixin:
                 ref = self.spec_eval(at[:-1], tmp, c, want=None)
                 r = z3.Int("r!frame")
                 st.assume(z3.ForAll([r], z3.Implies(r != ref.t, z3.Select(new, r) == z3.Select(old, r))))
+                self.frame_parent[new.get_id()] = (old, [ref.t])      # provenance: equal to `old` except at ref
             st.heap[(fam, field)] = new
